@@ -196,7 +196,7 @@ wires, and `concat` is applied to constants only.  Missing: alias-of-alias
 chains and `concat`, for which the statement is false. -/
 theorem C05_gc_safe_partial (prog out : List Step) (hwf : WF prog) (hnc : NoChain prog)
     (hcc : NoConcat prog) (hgc : gcPass prog = some out) : Safe prog out := by
-  unfold gcPass at hgc
+  unfold gcPass gcPassWith at hgc
   cases hlast : prog.getLast? with
   | none => rw [hlast] at hgc; cases hgc
   | some last =>
@@ -224,6 +224,33 @@ theorem C05_gc_safe_partial (prog out : List Step) (hwf : WF prog) (hnc : NoChai
         intro hconcat
         have := hcc s hs hconcat a' ha'
         rw [ha'c] at this; cases this
+
+/-- Specification of a sufficient fix: if the alias table consulted by the
+backward pass lists, for every value `v`, every value that points into `v`
+(transitively, through all eight rewiring operands), the inserted `gc`s are
+safe for EVERY well-formed program.  `Program.GC`'s table has only direct
+aliases through seven operands, which is why only `C05_gc_safe_partial`
+holds for it. -/
+theorem C05_gc_safe_transitive (prog out : List Step) (al : Nat → List Nat) (hwf : WF prog)
+    (hal : ∀ w v, PointsInto prog w v → w ≠ v → w ∈ al v)
+    (hgc : gcPassWith al prog = some out) : Safe prog out := by
+  unfold gcPassWith at hgc
+  cases hlast : prog.getLast? with
+  | none => rw [hlast] at hgc; cases hgc
+  | some last =>
+    rw [hlast] at hgc
+    simp only at hgc
+    split at hgc
+    · cases hgc
+    · simp only [Option.some.injEq] at hgc
+      intro pre post g hsplit hgop a ha t ht htop b hb hbc hpt
+      obtain ⟨a0, hg0, _, hsafe⟩ := gcBack_covered prog al (last.ins.map (·.id))
+        hwf.nogc hwf.ssa hal [] prog rfl hwf.dbu pre post g (by rw [hgc]; exact hsplit) hgop
+      have haa : a = a0 := by
+        rw [hg0] at ha
+        simpa [gcStep] using ha
+      subst haa
+      exact hsafe t ht htop b hb hbc hpt
 
 def mkV (id bits : Nat) : Arg := { const := false, id := id, key := id, bits := bits, signed := false, cint := 0 }
 def mkC (id bits n : Nat) : Arg := { const := true, id := id, key := id, bits := bits, signed := false, cint := n }
@@ -311,5 +338,24 @@ theorem C05_gc_concat_ids_collide :
       [⟨10, [true, true]⟩, ⟨11, List.replicate 32 false⟩, ⟨12, [true, false, true]⟩] concatOut).2
     tr.retIds.length = 96 ∧ tr.retIds.take 32 = (tr.retIds.drop 64) := by
   decide +kernel
+
+/-- The executable closure (`gcPassFixed`: alias table closed transitively over
+all rewiring operands) on the two witnesses: `gc a` is no longer emitted. -/
+theorem C05_gc_fixed_on_witnesses :
+    gcPassFixed chainProg =
+      some [chainProg[0], chainProg[1], chainProg[2], chainProg[3], gcStep (mkV 1 8), chainProg[4]] ∧
+    gcPassFixed concatProg =
+      some [concatProg[0], gcStep (mkV 1 32), concatProg[1], concatProg[2], gcStep (mkV 2 32), concatProg[3]] := by
+  decide
+
+/-- The wire-side theorem applies to the executed instance (`BitVec 128`, any
+block function, offset after `SetS(true)`). -/
+theorem C05_stream_concrete (π : BitVec 128 → BitVec 128) (r0 : BitVec 128) (p : SProg)
+    (gs : SStore (WireL (BitVec 128))) (es : SStore (BitVec 128)) (ps : SStore Bool) (id : Nat)
+    (D : Loc → Prop) (hinv : SInv (setS r0) D gs es ps) (hwf : wfAll p D) :
+    ∃ es', evalAll (hashOf π) (garbleAll (hashOf π) (setS r0) p gs id).2.2 es id =
+        .ok (es', (garbleAll (hashOf π) (setS r0) p gs id).2.1) ∧
+      SInv (setS r0) (definedAll p D) (garbleAll (hashOf π) (setS r0) p gs id).1 es' (plainAll p ps) :=
+  C05_stream_program (hashOf π) (setS r0) (setS_msb r0) p gs es ps id D hinv hwf
 
 end Mpc
